@@ -715,12 +715,20 @@ class NumericalMultiplicationOperator(BinaryOperator):
 
             self.el1_arrayed = isinstance(
                 self.element_1, BPTK_Py.sddsl.element.Element) and self.element_1._elements.vector_size()
+            el2_arrayed = isinstance(
+                self.element_2, BPTK_Py.sddsl.element.Element) and self.element_2._elements.vector_size()
 
             if(self.el1_arrayed):
                 cur_el1 = self.element_1
                 for i in self.index:
                     cur_el1 = cur_el1[i]
                 return "({}) * ({})".format(self.element_2.term(time), cur_el1.term(time))
+
+            elif(el2_arrayed):
+                cur_el2 = self.element_2
+                for i in self.index:
+                    cur_el2 = cur_el2[i]
+                return "({}) * ({})".format(cur_el2.term(time), self.element_1.term(time))
 
             else:
                 return "(" + self.element_2.term(time) + ") * (" + self.element_1.term(time) + ")"
@@ -747,14 +755,18 @@ class NumericalMultiplicationOperator(BinaryOperator):
             self.element_2, BPTK_Py.sddsl.element.Element) else self.element_2.clone_with_index(index)
         return NumericalMultiplicationOperator(element_1, element_2, index)
 
+    def _el1_arrayed(self):
+        return isinstance(
+            self.element_1, BPTK_Py.sddsl.element.Element) and self.element_1._elements.vector_size()
+
     def index_to_string(self, index):
-        if self.el1_arrayed:
+        if self._el1_arrayed():
             return self.element_1._elements.equations[index]
         else:
             return self.element_2._elements.equations[index]
 
     def is_named(self):
-        if self.el1_arrayed:
+        if self._el1_arrayed():
             return self.element_1.named_arrayed
         else:
             return self.element_2.named_arrayed
